@@ -32,11 +32,13 @@ LEAN_MODULES = ['MlModel.Properties.C18']
 TRUSTED = [
     'modelled, not verified: CPython dict/list/tuple semantics (insertion order, negative indices, copy.copy), '
     'structural pattern matching in set/__getitem__/_default_tree, Mapping mixin items()/keys() — written out in Model/Tree.lean',
-    'ndarray leaves are opaque in the model (never indexed into); key_paths= views are not modelled',
+    'ndarrays are opaque leaves in the Lean model: operations whose path indexes INTO an ndarray are skipped by the model; '
+    'the real code still runs the copying ones and the ORACLE alone judges them (original arrays unchanged at every depth, '
+    'get-after-set of an element, frame) — for those operations there is no theorem and no correspondence; key_paths= views are not modelled',
 ]
 ASSUMPTIONS = [
     'leaves are int/str/None/1-D int ndarray; dict keys are str/int/Literal objects; the view is built without key_paths',
-    'no path indexes inside an ndarray leaf; no cyclic input data (in-place sets never store an ancestor)',
+    'no cyclic input data (in-place sets never store an ancestor); ndarray elements are assigned ints only where the get/set law is claimed',
 ]
 RULE = ('heaps of <= ~25 cells (trees of depth <= 4 of dict/list/tuple with int/str/None/ndarray leaves, ~15% aliased '
         'sub-trees, NullMap or scalar roots now and then) with 1..5 operations drawn from copy-set / in-place set / '
@@ -44,6 +46,11 @@ RULE = ('heaps of <= ~25 cells (trees of depth <= 4 of dict/list/tuple with int/
         'existing, fresh (dict key, append, append+deeper), negative / out-of-range / wrongly-typed, with SELF, SKIP '
         'and Literal at head or inside, ~12% malformed (misaligned multi-key values, empty keys with values, strict views); '
         'small-exhaustive part: every path of length <= 2 over a fixed key alphabet on 6 fixed trees; '
+        'plus two families: (a) trees with 1-D/2-D ndarray nodes (also as view root, also shared) and copying ops whose paths index '
+        'into them (existing / negative / out-of-range index, tuple-of-ints key) — oracle only; (b) iterate a view, derive a view by '
+        'a copying set/update that changes the set of leaf paths (fresh key, append, leaf->subtree, subtree->leaf), iterate the '
+        'derived view object itself, chains of these. Along a sequence the SAME view objects are used (the view an op returned is '
+        'the one later ops read) and the items oracle is evaluated on every source and derived view object; '
         'non-trivial = at least one successful copying set/update/apply on a container root of depth >= 2')
 
 
@@ -96,7 +103,7 @@ class World:
       o = int(c['v'])
     elif t == 'str':
       o = str(c['v'])
-    elif t == 'arr':
+    elif t in ('arr', 'arr2'):       # 1-D / 2-D integer ndarray
       o = np.array(c['v'], dtype=np.int64)
     elif t == 'none':
       o = None
@@ -119,6 +126,8 @@ class World:
       return T.Index(k['x'])
     if 'i' in k:
       return k['i']
+    if 't' in k:                     # a tuple of ints: numpy multi-dimensional index
+      return tuple(k['t'])
     return self.lit(k['l'], k['v'])
 
   def path(self, p, bare=False):
@@ -146,6 +155,8 @@ class World:
       return {'x': int(k)}
     if isinstance(k, bool):
       return {'b': k}
+    if isinstance(k, tuple):
+      return {'t': [int(x) for x in k]}
     if isinstance(k, int):
       return {'i': int(k)}
     if isinstance(k, str):
@@ -178,7 +189,8 @@ class World:
     if isinstance(o, T.NullMap):
       return {'t': 'null', 'r': id(o)}
     if isinstance(o, np.ndarray):
-      return {'t': 'leaf', 'r': id(o), 'v': {'arr': [int(x) for x in o.tolist()]} if o.ndim == 1 else {'?': repr(o)}}
+      # opaque leaf for the model: the flattened content (the model request flattens 2-D arrays the same way)
+      return {'t': 'leaf', 'r': id(o), 'v': {'arr': [int(x) for x in o.reshape(-1).tolist()]} if o.ndim >= 1 else {'?': repr(o)}}
     if o is None:
       return {'t': 'leaf', 'v': 'none'}
     if isinstance(o, bool):
@@ -279,6 +291,11 @@ def same(a, b):
     return a == b
   if isinstance(a, tuple) and isinstance(b, tuple) and not a and not b:
     return True
+  if isinstance(a, (np.generic, int)) and isinstance(b, (np.generic, int)) and not isinstance(a, bool) \
+      and not isinstance(b, bool) and (isinstance(a, np.generic) or isinstance(b, np.generic)):
+    return bool(a == b)              # an element read from an ndarray is a new numpy scalar each time
+  if isinstance(a, np.ndarray) and isinstance(b, np.ndarray):
+    return a.shape == b.shape and bool(np.array_equal(a, b))   # a row read from a 2-D array is a new view object
   return False
 
 
@@ -355,7 +372,13 @@ def node_paths(T, o, limit=60):
     elif isinstance(x, (list, tuple)):
       for i, v in enumerate(x):
         rec(v, pre + (T.Index(i),))
-  rec(o, ())
+    elif isinstance(x, np.ndarray) and x.ndim >= 1:
+      for i in range(min(len(x), 4)):
+        rec(x[i], pre + (T.Index(i),))
+  if isinstance(o, np.ndarray):
+    rec(o, ())
+  else:
+    rec(o, ())
   return out
 
 
@@ -488,7 +511,7 @@ def run_impl(case):
   T = _tree()
   w = World(case)
   labels = Labels({id(w.objs[r]): f'cell#{r}' for r, c in enumerate(case['heap'])
-                   if c['t'] in ('dict', 'list', 'tuple', 'arr', 'null') and not (c['t'] == 'tuple' and not c['rs'])})
+                   if c['t'] in ('dict', 'list', 'tuple', 'arr', 'arr2', 'null') and not (c['t'] == 'tuple' and not c['rs'])})
   known = {}            # id -> object: every identity-carrying object seen so far (kept alive)
   for r, o in w.objs.items():
     if id(o) in labels.tab:
@@ -497,6 +520,18 @@ def run_impl(case):
   results = []          # result root object per op (or a marker)
   NOROOT = object()
   ops_obs, laws = [], []
+  # The SAME view objects are used along the sequence: one view per input root, and the view object an
+  # operation returned is the one later operations read (never a view re-wrapped from `.data`), so state a
+  # view carries over into derived views is part of what is observed.
+  views = {}
+
+  def view_for(spec, root):
+    key = ('root', spec) if isinstance(spec, int) else ('res', spec['res'])
+    v = views.get(key)
+    if v is None or v.data is not root:
+      v = T.TreeMapView(root, strict=strict)
+      views[key] = v
+    return v
 
   def law(i, msg):
     laws.append(f'op {i} ({case["ops"][i]["op"]}): {msg}')
@@ -526,7 +561,11 @@ def run_impl(case):
       elif kind == 'update':
         skip = any(touches_arr(w, root, p, True) for p, _ in op['pairs']) or \
             (len(op['pairs']) > 1 and any(has_arr(w.objs[v]) for _, v in op['pairs']))
-      if skip:                 # indexing inside an ndarray leaf is outside the model: skipped on both sides
+      # Indexing INSIDE an ndarray is outside the Lean model (arrays are opaque leaves there): the model
+      # skips the op.  The real code still runs it — copying ops only — and the oracle below judges it
+      # (no mutation of the original arrays, get-after-set, frame); the observation stays 'skipped'.
+      oracle_only = skip
+      if skip and (in_place or kind not in ('get', 'getd', 'set', 'update')):
         ops_obs.append({'skipped': True})
         results.append(NOROOT)
         return
@@ -536,8 +575,11 @@ def run_impl(case):
         nodes(value, before_nodes)
       snap_shallow = {k: shallow(o) for k, o in before_nodes.items()}
       snap_deep = copy.deepcopy(root)
-      view = T.TreeMapView(root, strict=strict)
+      view = view_for(op['root'], root)
       obs, res_root = {}, NOROOT
+      new_view = None
+      if kind in ('set', 'update') and not in_place:
+        _items_laws(T, w, law, i, view, 'source view before the copying op')   # also: the view has been iterated
       try:
         if kind in ('get', 'getd'):
           keys = w.keys(op['keys'], op.get('bare', False), op.get('aslist', False))
@@ -560,9 +602,11 @@ def run_impl(case):
           keys = w.keys(op['keys'], op.get('bare', False), op.get('aslist', False))
           nv = view.set(keys, value) if in_place else view.copy_and_set(keys, value)
           res_root = nv.data
+          new_view = nv
           obs = {'err': None, 'res': w.dump(res_root)}
           if not in_place:
             _set_laws(T, w, law, i, op, view, nv, keys, value)
+            _items_laws(T, w, law, i, nv, 'view returned by copy_and_set')
           elif nv is not view:
             law(i, 'in-place set returned another view')
         elif kind == 'update':
@@ -570,14 +614,17 @@ def run_impl(case):
           other = dict(pairs) if op.get('asdict', False) else pairs
           nv = view.copy_and_update(other)
           res_root = nv.data
+          new_view = nv
           obs = {'err': None, 'res': w.dump(res_root)}
+          _items_laws(T, w, law, i, nv, 'view returned by copy_and_update')
           # sequential-set reference: later pairs win, earlier incomparable pairs survive
           for j, (k, v) in enumerate(pairs):
             pk = plain_prefix(T, list(k) if isinstance(k, T.Key) else [k])
             if pk is None:
               continue
             later = [plain_prefix(T, list(k2) if isinstance(k2, T.Key) else [k2]) for k2, _ in pairs[j + 1:]]
-            if all(l is not None and incomparable(pk, l) for l in later):
+            if all(l is not None and incomparable(pk, l) for l in later) and \
+                _elementwise(T, view, k if isinstance(k, T.Key) else T.Key((k,)), v):
               got = read(nv, k if isinstance(k, T.Key) else T.Key((k,)))
               if got[0] != 'ok' or not same(got[1], v):
                 law(i, f'after copy_and_update, {k!r} does not read the updated value')
@@ -585,30 +632,10 @@ def run_impl(case):
           its = list(view.items())
           # a Reserved('SKIP') met as a *dict key* is the string 'SKIP' (only SELF alone denotes the root)
           obs = {'err': None, 'items': [[canon_items_path(T, w, root, k), w.dump(v)] for k, v in its]}
-          if is_container(root) and plain_dicts(root):
-            want = leaf_paths(T, root)
-            got = [(tuple(k) if isinstance(k, T.Key) else (k,), v) for k, v in its]
-            if len(got) != len(want):
-              law(i, f'items lists {len(got)} leaves, the tree has {len(want)}')
-            else:
-              for (gp, gv), (wp, wv) in zip(got, want):
-                if len(gp) != len(wp) or any(not (a is b or (norm_key(T, a) is not None and norm_key(T, a) == norm_key(T, b)
-                                                            and isinstance(a, T.Index) == isinstance(b, T.Index)))
-                                            for a, b in zip(gp, wp)):
-                  law(i, f'items path {gp!r} where DFS order has {wp!r}')
-                  break
-                if not same(gv, wv):
-                  law(i, f'items value at {gp!r} is not the leaf')
-                  break
-            for k, v in its:
-              back = read(view, k)
-              if back[0] != 'ok' or not same(back[1], v):
-                law(i, f'path {k!r} listed by items does not read back its leaf')
-            if [k for k, _ in its] != list(view.keys()) or not all(same(a, b) for (_, a), b in zip(its, view.values())):
-              law(i, 'keys()/values() disagree with items()')
+          _items_laws(T, w, law, i, view, 'view', its)
         elif kind == 'apply':
           fn = LEAF_FNS[op['fn']]
-          mv = T.TreeMapView(root, map_fn=fn, strict=strict)
+          mv = T.TreeMapView.as_view(view, map_fn=fn) if fn is not None else view
           res_root = mv.apply()
           obs = {'err': None, 'res': w.dump(res_root)}
           if fn is None:
@@ -635,9 +662,16 @@ def run_impl(case):
         bad = [k for k in changed if k not in allowed]
         if bad:
           law(i, 'in-place set changed an object that is not on the key path')
+      if oracle_only:          # judged by the laws above; not part of the correspondence
+        ops_obs.append({'skipped': True})
+        results.append(NOROOT)
+        _KEEP.append((view, res_root, new_view))
+        return
       if kind in ('set', 'update', 'apply'):
         obs['orig'] = w.dump(root)
         obs['changed'] = changed
+      if res_root is not NOROOT:
+        views[('res', i)] = new_view if new_view is not None else T.TreeMapView(res_root, strict=strict)
       ro = labels.obs(obs)
       # keep every newly labelled object alive so ids are never reused
       if res_root is not NOROOT:
@@ -674,6 +708,41 @@ def run_impl(case):
 _KEEP = []
 
 
+def _items_laws(T, w, law, i, vw, what, its=None):
+  """Iterating THIS view object lists every leaf of its data exactly once, in DFS order, with a path that
+  reads back that leaf; keys()/values()/len() agree.  (Container roots with plain dict keys.)"""
+  root = vw.data
+  if not (is_container(root) and plain_dicts(root)):
+    return
+  try:
+    if its is None:
+      its = list(vw.items())
+    want = leaf_paths(T, root)
+    got = [(tuple(k) if isinstance(k, T.Key) else (k,), v) for k, v in its]
+    if len(got) != len(want):
+      law(i, f'{what}: items lists {len(got)} leaves, the tree has {len(want)}')
+    else:
+      for (gp, gv), (wp, wv) in zip(got, want):
+        if len(gp) != len(wp) or any(not (a is b or (norm_key(T, a) is not None and norm_key(T, a) == norm_key(T, b)
+                                                    and isinstance(a, T.Index) == isinstance(b, T.Index)))
+                                    for a, b in zip(gp, wp)):
+          law(i, f'{what}: items path {gp!r} where DFS order has {wp!r}')
+          break
+        if not same(gv, wv):
+          law(i, f'{what}: items value at {gp!r} is not the leaf')
+          break
+    for k, v in its:
+      back = read(vw, k)
+      if back[0] != 'ok' or not same(back[1], v):
+        law(i, f'{what}: path {k!r} listed by items does not read back its leaf')
+    if [k for k, _ in its] != list(vw.keys()) or not all(same(a, b) for (_, a), b in zip(its, vw.values())):
+      law(i, f'{what}: keys()/values() disagree with items()')
+    if len(vw) != len(its):
+      law(i, f'{what}: len(view) = {len(vw)} but items() lists {len(its)}')
+  except (KeyError, IndexError, TypeError, ValueError) as e:
+    law(i, f'{what}: iterating the view raised {err_kind(e)}')
+
+
 def _path_objects(T, w, root, op, snap):
   """ids of the objects an in-place set may touch: the nodes met walking the key path(s) from the root
   (walked on the *current* objects; the path nodes are never replaced by an in-place set)."""
@@ -693,6 +762,30 @@ def _path_objects(T, w, root, op, snap):
         break
       allowed.add(id(cur))
   return allowed
+
+
+def _into_array(T, root, key):
+  """Does walking `key` from `root` index INTO an ndarray (an array met with keys still to go)?"""
+  cur = root
+  for k in key:
+    if isinstance(k, (T.Reserved, T.Literal)):
+      return False
+    if isinstance(cur, np.ndarray):
+      return True
+    try:
+      cur = cur[k]
+    except Exception:  # pylint: disable=broad-except
+      return False
+  return False
+
+
+def _elementwise(T, view, key, value):
+  """For a path into an ndarray the get/set law is claimed when one ELEMENT is assigned an int (assigning
+  a row or a sequence broadcasts by numpy's rules, which is not a tree operation)."""
+  if not _into_array(T, view.data, key):
+    return True
+  old = read(view, key)
+  return old[0] == 'ok' and isinstance(old[1], np.generic) and isinstance(value, int) and not isinstance(value, bool)
 
 
 def _set_laws(T, w, law, i, op, view, nv, keys, value):
@@ -720,8 +813,11 @@ def _set_laws(T, w, law, i, op, view, nv, keys, value):
       law(i, f'a SKIP key changed the data: {nv.data!r} vs {root!r}')
   sets = [n for n in norm if n[0] == 'set']
   # get-after-set holds for negative indices too (a single path; the same key object reads the same slot)
+  single_into_arr = len(plist) == 1 and len(sets) == 1 and _into_array(T, root, sets[0][1]) and \
+      not any(isinstance(x, (T.Reserved, T.Literal)) for x in sets[0][1])
   if len(plist) == 1 and len(sets) == 1 and sets[0][3] is None and \
-      plain_prefix(T, list(sets[0][1]), allow_neg=True) is not None:
+      (plain_prefix(T, list(sets[0][1]), allow_neg=True) is not None or single_into_arr) and \
+      _elementwise(T, view, sets[0][1], sets[0][2]):
     got = read(nv, sets[0][1])
     if got[0] != 'ok' or not same(got[1], sets[0][2]):
       law(i, f'get after copy_and_set({sets[0][1]!r}) returned {got!r}, not the value set')
@@ -729,12 +825,12 @@ def _set_laws(T, w, law, i, op, view, nv, keys, value):
     return      # Literal / inner SKIP / negative indices: outside the get/set laws
   for j, (_, k, v, pk) in enumerate(sets):
     later = [n[3] for n in sets[j + 1:]]
-    if all(incomparable(pk, l) for l in later):
+    if all(incomparable(pk, l) for l in later) and _elementwise(T, view, k, v):
       got = read(nv, k)
       if got[0] != 'ok' or not same(got[1], v):
         law(i, f'get after copy_and_set({k!r}) returned {got!r}, not the value set')
   # frame: every node path of the original (and some fresh ones) incomparable with all set paths
-  if is_container(root):
+  if is_container(root) or isinstance(root, np.ndarray):
     cands = node_paths(T, root)
     extra = []
     for q in cands[:12]:
@@ -756,8 +852,23 @@ def _set_laws(T, w, law, i, op, view, nv, keys, value):
 
 # ----------------------------------------------------------------------------- model side
 
+def _for_model(x):
+  """The model keeps ndarrays opaque: a 2-D array is sent as its flattened content, a tuple-of-ints key
+  (only ever generated directly at an array) as the index of its first component — both only matter for the
+  model's decision to skip the operation, which is taken at the array before the key is used."""
+  if isinstance(x, dict):
+    if x.get('t') == 'arr2':
+      return {'t': 'arr', 'v': [e for row in x['v'] for e in row]}
+    if set(x) == {'t'} and isinstance(x['t'], list):
+      return {'x': x['t'][0]}
+    return {k: _for_model(v) for k, v in x.items()}
+  if isinstance(x, list):
+    return [_for_model(v) for v in x]
+  return x
+
+
 def model_requests(case):
-  return [dict(model='tree', strict=case['strict'], heap=case['heap'], ops=case['ops'])]
+  return [dict(model='tree', strict=case['strict'], heap=_for_model(case['heap']), ops=_for_model(case['ops']))]
 
 
 def model_obs(case, resps):
@@ -1137,6 +1248,118 @@ def exhaustive_cases():
         ]}
 
 
+def make_arr_case(rng):
+  """Trees with ndarray nodes (1-D and 2-D) and COPYING operations whose paths index into the arrays: existing,
+  negative and out-of-range indices, a tuple-of-ints key on a 2-D array, the array as view root.  The Lean
+  model skips these operations (arrays are opaque there); the oracle judges them on the real objects."""
+  g = Gen(rng)
+  a1 = g.add({'t': 'arr', 'v': rng.choice([[1, 2, 3], [10, 20], [7]])})
+  a2 = g.add({'t': 'arr2', 'v': rng.choice([[[0, 1, 2], [3, 4, 5]], [[1, 2], [3, 4], [5, 6]]])})
+  a3 = g.add({'t': 'arr', 'v': [4, 5, 6, 7]})
+  leaf = g.add({'t': 'int', 'v': 3})
+  shape = rng.randrange(5)
+  if shape == 0:      # {'model': {'scores': a1}, 'rows': [a2], 'b': 3}
+    inner = g.add({'t': 'dict', 'es': [[{'s': 'scores'}, a1]]})
+    rows = g.add({'t': 'list', 'rs': [a2]})
+    root = g.add({'t': 'dict', 'es': [[{'s': 'model'}, inner], [{'s': 'rows'}, rows], [{'s': 'b'}, leaf]]})
+    arrs = [([{'s': 'model'}, {'s': 'scores'}], a1), ([{'s': 'rows'}, {'x': 0}], a2)]
+  elif shape == 1:    # [a1, (a2, 3), a3]
+    tup = g.add({'t': 'tuple', 'rs': [a2, leaf]})
+    root = g.add({'t': 'list', 'rs': [a1, tup, a3]})
+    arrs = [([{'x': 0}], a1), ([{'x': 1}, {'x': 0}], a2), ([{'x': 2}], a3)]
+  elif shape == 2:    # the array is the root of the view
+    root = rng.choice([a1, a2])
+    arrs = [([], root)]
+  elif shape == 3:    # the same array object at two places
+    root = g.add({'t': 'dict', 'es': [[{'s': 'a'}, a1], [{'s': 'b'}, a1], [{'i': 0}, a2]]})
+    arrs = [([{'s': 'a'}], a1), ([{'s': 'b'}], a1), ([{'i': 0}], a2)]
+  else:               # ({'a': a3},)
+    d = g.add({'t': 'dict', 'es': [[{'s': 'a'}, a3], [{'s': 'n'}, leaf]]})
+    root = g.add({'t': 'tuple', 'rs': [d]})
+    arrs = [([{'x': 0}, {'s': 'a'}], a3)]
+  vals = [g.add({'t': 'int', 'v': v}) for v in (99, -7, 0)]
+  other = [g.add({'t': 'str', 'v': 'x'}), g.add({'t': 'list', 'rs': [vals[0]]}), g.add({'t': 'none'})]
+
+  def into(pre, cell):
+    c = g.cells[cell]
+    if c['t'] == 'arr':
+      n = len(c['v'])
+      tail = rng.choice([[{'x': rng.randrange(n)}], [{'x': -1}], [{'i': rng.randrange(n)}], [{'x': n}], [{'x': -n - 1}],
+                         [{'x': 0}, {'x': 0}], [{'s': 'a'}]] if rng.random() < 0.35 else [[{'x': rng.randrange(n)}], [{'x': -1}]])
+    else:
+      n, m = len(c['v']), len(c['v'][0])
+      i, j = rng.randrange(n), rng.randrange(m)
+      tail = rng.choice([[{'x': i}, {'x': j}], [{'x': i}, {'x': -1}], [{'x': -1}, {'x': j}], [{'t': [i, j]}],
+                         [{'x': i}], [{'x': n}, {'x': 0}], [{'x': i}, {'x': m}]])
+    return pre + tail
+
+  ops = []
+  for _ in range(rng.randrange(1, 5)):
+    pre, cell = rng.choice(arrs)
+    p = into(pre, cell)
+    k = rng.random()
+    v = rng.choice(vals) if rng.random() < 0.8 else rng.choice(other)
+    if k < 0.55:
+      ops.append({'op': 'set', 'root': root, 'keys': {'path': p}, 'value': v, 'in_place': False})
+    elif k < 0.65:
+      pre2, cell2 = rng.choice(arrs)
+      ops.append({'op': 'update', 'root': root, 'pairs': [[p, v], [into(pre2, cell2), rng.choice(vals)]], 'asdict': False})
+    elif k < 0.8:
+      ops.append({'op': rng.choice(['get', 'getd']), 'root': root, 'keys': {'path': p}})
+    elif k < 0.9:
+      pre2, cell2 = rng.choice(arrs)
+      ops.append({'op': 'get', 'root': root, 'keys': {'multi': [p, into(pre2, cell2)]}})
+    else:
+      ops.append({'op': 'items', 'root': root})
+  return {'strict': False, 'heap': g.cells, 'root': root, 'ops': ops}
+
+
+def make_memo_case(rng):
+  """Iterate a view, derive a view by a copying set/update that CHANGES the set of leaf paths (fresh key,
+  index append, leaf -> subtree, subtree -> leaf), iterate the derived view object itself; chains of these."""
+  g = Gen(rng)
+  root = g.node(rng.choice([2, 3]), alias=0.0)
+  tries = 0
+  while (g.cells[root]['t'] not in ('dict', 'list') or not g.children(root)) and tries < 8:
+    root = g.node(rng.choice([2, 3]), alias=0.0)
+    tries += 1
+  if g.cells[root]['t'] not in ('dict', 'list') or not g.children(root):
+    l1, l2 = g.add({'t': 'int', 'v': 1}), g.add({'t': 'int', 'v': 2})
+    root = g.add({'t': 'dict', 'es': [[{'s': 'a'}, g.add({'t': 'list', 'rs': [l1, l2]})], [{'s': 'b'}, l2]]})
+  scal = [g.add({'t': 'int', 'v': v}) for v in (5, 6)]
+  sub = g.add({'t': 'dict', 'es': [[{'s': 'p'}, scal[0]], [{'s': 'q'}, g.add({'t': 'list', 'rs': [scal[1], scal[0]]})]]})
+  ops = [{'op': 'items', 'root': root}]
+  cur = root
+  for step in range(rng.randrange(1, 4)):
+    p, cell = g.existing_path(root, maxlen=3)
+    p = [k for k in p if not (isinstance(k, dict) and k.get('x', 0) < 0)]
+    c = g.cells[cell] if p else g.cells[root]
+    how = rng.random()
+    if how < 0.35 or not p:                        # fresh key / append next to existing leaves
+      cont, ccell = g.existing_path(root, maxlen=2)
+      cc = g.cells[ccell]
+      if cc['t'] == 'dict':
+        q = cont + [{'s': 'new%d' % step}]
+      elif cc['t'] == 'list':
+        q = cont + [{'x': len(cc['rs'])}]
+      else:
+        q = [{'s': 'new%d' % step}] if g.cells[root]['t'] == 'dict' else [{'x': len(g.cells[root]['rs'])}]
+      val = rng.choice(scal + [sub])
+    elif how < 0.7:                                # whatever is at p becomes a subtree (leaf -> subtree)
+      q, val = p, sub
+    else:                                          # whatever is at p becomes a leaf (subtree -> leaf)
+      q, val = p, rng.choice(scal)
+    if rng.random() < 0.75:
+      ops.append({'op': 'set', 'root': cur, 'keys': {'path': q}, 'value': val, 'in_place': False})
+    else:
+      ops.append({'op': 'update', 'root': cur, 'pairs': [[q, val]], 'asdict': rng.random() < 0.5})
+    cur = {'res': len(ops) - 1}
+    ops.append({'op': 'items', 'root': cur})
+    if rng.random() < 0.3:
+      ops.append({'op': 'items', 'root': root})   # the source view again
+  return {'strict': False, 'heap': g.cells, 'root': root, 'ops': ops[:6]}
+
+
 def gen_cases(ctx):
   for c in ctx.corpus():
     yield c
@@ -1146,6 +1369,12 @@ def gen_cases(ctx):
     yield c
   ctx.count('stage', 'exhaustive', n)
   rng = ctx.rng
+  for _ in range(1200 if ctx.quick else 20000):
+    ctx.count('stage', 'ndarray-paths')
+    yield make_arr_case(rng)
+  for _ in range(1200 if ctx.quick else 20000):
+    ctx.count('stage', 'iterate-derive-iterate')
+    yield make_memo_case(rng)
   total = 8000 if ctx.quick else 150000
   for i in range(total):
     case, feats = make_case(rng, malformed=(i % 8 == 0))
